@@ -1,7 +1,7 @@
 import PystogVerif.Spec.Transform
 import PystogVerif.VecAttr
 import PystogVerif.Gen.Transformer
-import PystogVerif.Proofs.Converter
+import PystogVerif.Proofs.Pointwise
 import Mathlib.Tactic.Ring
 import Mathlib.Tactic.Linarith
 
